@@ -27,7 +27,9 @@ POOL = [('exp', 'central', 1, 2, 'default'), ('exp', 'central', 1, 4, 'default')
 MPOOL = [('mexp', 'central', 2, 2, 'default', 'Hessdiag'), ('mexp', 'forward', 2, 2, 'default', 'Hessdiag'),
          ('mexp', 'central', 1, 2, 'default', 'Gradient'), ('mexp', 'central', 2, None, 'default', 'Hessian'),
          ('vexp', 'forward', 1, 2, 'default', 'Jacobian')]
-POOL_ALL = POOL + MPOOL
+# further configurations used by thread pairs only (not part of the history alphabet)
+XPOOL = [('exp', 'complex', 1, 2, 'default'), ('exp', 'complex', 2, 4, 'default')]
+POOL_ALL = POOL + MPOOL + XPOOL
 
 
 def cls_of(cfg):
@@ -172,7 +174,7 @@ def enabled_ops(world, hist, mode='full'):
                 ops.append(('new', s, ci, 'max'))
             if cfg[4] == 'default' and ci in (0, 4):
                 ops.append(('new', s, ci, 'min'))
-        for ci in range(len(POOL), len(POOL_ALL)):
+        for ci in range(len(POOL), len(POOL) + len(MPOOL)):
             ops.append(('new', s, ci, 'own'))
     for s in SLOTS:
         obj = world.slots[s]
@@ -402,6 +404,7 @@ def _pmap_collect(ctx, frontier, refs, mode='full'):
 
 PAIRS = [(0, 0), (0, 1), (1, 5), (0, 3), (0, 4), (2, 5), (4, 4)]
 MPAIRS = [(6, 6), (6, 7), (6, 9), (8, 10), (0, 6)]      # thread pairs with multivariate classes (array point)
+XPAIRS = [(4, 11), (11, 12)]      # complex-step objects of different (n, order) classes (scalar point)
 TRIPLES = [(0, 0, 1), (0, 2, 4)]
 
 
@@ -642,6 +645,9 @@ def run(ctx):
     for cis in MPAIRS:
         for k in range(shards):
             jobs.append((cis, 2, 1, 'line', (k, shards)))
+    for cis in XPAIRS:
+        for k in range(shards):
+            jobs.append((cis, 0, 1, 'line', (k, shards)))
     if not q:
         for cis in PAIRS[:4]:
             for k in range(64):
@@ -665,7 +671,7 @@ def run(ctx):
                history_depth_completed=hs['depth'], single_object_history_depth_completed=hs['single_object_depth'],
                schedules=nsched, schedule_points=int(acc.counters.get('points', 0)),
                preemption_bound_completed=dict(line=1 if q else 2, instruction=0 if q else 1, three_threads=0 if q else 1))
-    req = ['sched/%s/line/b1' % '-'.join(str(c) for c in cis) for cis in PAIRS + MPAIRS] + ['hist/central', 'hist/forward',
+    req = ['sched/%s/line/b1' % '-'.join(str(c) for c in cis) for cis in PAIRS + MPAIRS + XPAIRS] + ['hist/central', 'hist/forward',
                                                                                    'hist/complex']
     req += ['nested/Derivative-in-Derivative', 'nested/Hessdiag-in-Hessdiag', 'nested/Gradient-in-Hessian', 'nested/share=max']
     rule = ('references: one fresh interpreter per (configuration, point) (%d subprocesses). E2: BFS over histories of '
